@@ -47,45 +47,166 @@ def _eval_int_guard(e: ast.AST, env: dict[str, int]) -> bool | int:
     raise AnalysisError(f"unsupported expression in byte guard: {unparse(e)}")
 
 
+class _Unsupported(Exception):
+    pass
+
+
+_STR_PREDICATES = {"isprintable", "isascii", "isalnum", "isalpha", "isdigit", "isspace", "isupper", "islower", "isidentifier", "isdecimal", "isnumeric"}
+
+
+def _eval_pure(e: ast.AST, env: dict[str, object]):
+    """Value of a side-effect-free expression over ints / strings / bytes bound in env (exhaustive evaluation of the byte
+    escaper over its finite domain).  Only total, deterministic builtins are interpreted; anything else is _Unsupported."""
+    if isinstance(e, ast.Constant):
+        return e.value
+    if isinstance(e, ast.Name):
+        if e.id in env:
+            return env[e.id]
+        raise _Unsupported(unparse(e))
+    if isinstance(e, ast.NamedExpr):
+        env[e.target.id] = _eval_pure(e.value, env)
+        return env[e.target.id]
+    if isinstance(e, ast.BoolOp):
+        v = None
+        for x in e.values:
+            v = _eval_pure(x, env)
+            if isinstance(e.op, ast.And) and not v:
+                return v
+            if isinstance(e.op, ast.Or) and v:
+                return v
+        return v
+    if isinstance(e, ast.UnaryOp) and isinstance(e.op, ast.Not):
+        return not _eval_pure(e.operand, env)
+    if isinstance(e, ast.UnaryOp) and isinstance(e.op, ast.USub):
+        return -_eval_pure(e.operand, env)
+    if isinstance(e, ast.BinOp) and isinstance(e.op, (ast.Add, ast.Sub, ast.BitAnd, ast.BitOr, ast.RShift, ast.LShift, ast.Mod, ast.FloorDiv)):
+        a, b = _eval_pure(e.left, env), _eval_pure(e.right, env)
+        if isinstance(e.op, ast.Mod) and isinstance(a, str):
+            return a % b
+        return {ast.Add: lambda: a + b, ast.Sub: lambda: a - b, ast.BitAnd: lambda: a & b, ast.BitOr: lambda: a | b, ast.RShift: lambda: a >> b, ast.LShift: lambda: a << b, ast.Mod: lambda: a % b, ast.FloorDiv: lambda: a // b}[type(e.op)]()
+    if isinstance(e, ast.Compare):
+        left = _eval_pure(e.left, env)
+        for op, c in zip(e.ops, e.comparators):
+            right = _eval_pure(c, env)
+            fn = {ast.Lt: lambda: left < right, ast.LtE: lambda: left <= right, ast.Gt: lambda: left > right, ast.GtE: lambda: left >= right, ast.Eq: lambda: left == right, ast.NotEq: lambda: left != right, ast.In: lambda: left in right, ast.NotIn: lambda: left not in right}.get(type(op))
+            if fn is None:
+                raise _Unsupported(unparse(e))
+            if not fn():
+                return False
+            left = right
+        return True
+    if isinstance(e, (ast.Tuple, ast.List, ast.Set)):
+        vals = [_eval_pure(x, env) for x in e.elts]
+        return tuple(vals) if not isinstance(e, ast.Set) else frozenset(vals)
+    if isinstance(e, ast.IfExp):
+        return _eval_pure(e.body, env) if _eval_pure(e.test, env) else _eval_pure(e.orelse, env)
+    if isinstance(e, ast.JoinedStr):
+        out = ""
+        for part in e.values:
+            if isinstance(part, ast.Constant):
+                out += part.value
+            elif isinstance(part, ast.FormattedValue) and part.conversion == -1:
+                spec = _eval_pure(part.format_spec, env) if part.format_spec is not None else ""
+                out += format(_eval_pure(part.value, env), spec)
+            else:
+                raise _Unsupported(unparse(e))
+        return out
+    if isinstance(e, ast.Call) and not e.keywords:
+        fn = unparse(e.func)
+        if fn in ("chr", "ord", "len", "hex", "bytes", "range", "int", "str") and all(not isinstance(a, ast.Starred) for a in e.args):
+            args = [_eval_pure(a, env) for a in e.args]
+            try:
+                return {"chr": chr, "ord": ord, "len": len, "hex": hex, "bytes": bytes, "range": range, "int": int, "str": str}[fn](*args)
+            except (ValueError, TypeError) as x:
+                raise _Unsupported(f"{unparse(e)}: {x}")
+        if isinstance(e.func, ast.Attribute) and e.func.attr in _STR_PREDICATES and not e.args:
+            v = _eval_pure(e.func.value, env)
+            if isinstance(v, str):
+                return getattr(v, e.func.attr)()
+        if isinstance(e.func, ast.Attribute) and e.func.attr in ("upper", "lower", "format", "rjust", "zfill") :
+            v = _eval_pure(e.func.value, env)
+            if isinstance(v, str):
+                return getattr(v, e.func.attr)(*[_eval_pure(a, env) for a in e.args])
+    raise _Unsupported(unparse(e))
+
+
+def _exec_escaper(stmts: list[ast.stmt], env: dict[str, object], out: list[str]) -> str:
+    """Run the body of the byte loop for one byte; printed pieces are appended to out.  Returns 'next' | 'continue'."""
+    for st in stmts:
+        if isinstance(st, ast.Pass):
+            continue
+        if isinstance(st, ast.Continue):
+            return "continue"
+        if isinstance(st, ast.If):
+            k = _exec_escaper(st.body if _eval_pure(st.test, env) else st.orelse, env, out)
+            if k != "next":
+                return k
+            continue
+        if isinstance(st, ast.Match):
+            subj = _eval_pure(st.subject, env)
+            for case in st.cases:
+                pat = case.pattern
+                if isinstance(pat, ast.MatchValue):
+                    hit = _eval_pure(pat.value, env) == subj
+                elif isinstance(pat, ast.MatchOr) and all(isinstance(q, ast.MatchValue) for q in pat.patterns):
+                    hit = any(_eval_pure(q.value, env) == subj for q in pat.patterns)
+                elif isinstance(pat, ast.MatchAs) and pat.pattern is None:
+                    hit = True
+                    if pat.name:
+                        env[pat.name] = subj
+                else:
+                    raise _Unsupported(f"case {unparse(pat)}")
+                if hit and case.guard is not None:
+                    hit = bool(_eval_pure(case.guard, env))
+                if hit:
+                    k = _exec_escaper(case.body, env, out)
+                    if k != "next":
+                        return k
+                    break
+            continue
+        if isinstance(st, (ast.Assign, ast.AnnAssign)) and (st.value is not None):
+            tg = st.targets[0] if isinstance(st, ast.Assign) else st.target
+            if isinstance(tg, ast.Name):
+                env[tg.id] = _eval_pure(st.value, env)
+                continue
+        if isinstance(st, ast.Expr) and isinstance(st.value, ast.Call) and unparse(st.value.func) in ("self.print_string", "self._print", "self.print") and len(st.value.args) == 1:
+            v = _eval_pure(st.value.args[0], env)
+            if not isinstance(v, str):
+                raise _Unsupported(unparse(st))
+            out.append(v)
+            continue
+        raise _Unsupported(unparse(st)[:60])
+    return "next"
+
+
 def byte_forms(idx: Index) -> dict[int, str]:
-    """Form printed by Printer.print_bytes_literal for each byte: 'raw', 'esc:<text>' or 'hex:<fmt>'."""
+    """Form printed by Printer.print_bytes_literal for each byte: 'raw', 'esc:<text>' or 'hex:<fmt>' -- obtained by evaluating
+    the body of its byte loop for each of the 256 values (if / match / conditional expressions over total str / int builtins)."""
     f = idx.func(PRINTER, "Printer.print_bytes_literal")
     loops = [w for w in walk_local(f.node) if isinstance(w, ast.For)]
-    if len(loops) != 1 or not (len(loops[0].body) == 1 and isinstance(loops[0].body[0], ast.Match)):
-        raise AnalysisError(f"{f.fq}: expected `for byte in ...: match byte:`")
-    var = unparse(loops[0].target)
-    m = loops[0].body[0]
+    if len(loops) != 1 or not isinstance(loops[0].target, ast.Name):
+        raise AnalysisError(f"{f.fq}: expected one `for <byte> in ...:` loop")
+    var = loops[0].target.id
     out: dict[int, str] = {}
     for b in range(256):
-        form = None
-        for case in m.cases:
-            pat = case.pattern
-            hit = False
-            if isinstance(pat, ast.MatchValue):
-                hit = _eval_int_guard(pat.value, {}) == b
-            elif isinstance(pat, ast.MatchAs) and pat.pattern is None:
-                hit = True
-            else:
-                raise AnalysisError(f"{f.fq}: unsupported case pattern {unparse(pat)}")
-            if hit and case.guard is not None:
-                hit = bool(_eval_int_guard(case.guard, {var: b}))
-            if hit:
-                calls = [c for c in calls_in(case) if unparse(c.func) == "self.print_string"]
-                if len(calls) != 1:
-                    raise AnalysisError(f"{f.fq}: case body not a single print_string")
-                a = calls[0].args[0]
-                if isinstance(a, ast.Constant):
-                    form = "esc:" + a.value
-                elif isinstance(a, ast.JoinedStr):
-                    form = "hex:" + unparse(a).replace("{" + var + ":", "{byte:")  # the loop variable, whatever it is called
-                elif isinstance(a, ast.Call) and unparse(a) == f"chr({var})":
-                    form = "raw"
-                else:
-                    raise AnalysisError(f"{f.fq}: unsupported printed form {unparse(a)}")
-                break
-        if form is None:
-            raise AnalysisError(f"{f.fq}: byte {b} is not printed by any case")
-        out[b] = form
+        pieces: list[str] = []
+        try:
+            _exec_escaper(loops[0].body, {var: b}, pieces)
+        except _Unsupported as x:
+            raise AnalysisError(f"{f.fq}: the byte escaper uses a construct the evaluator does not interpret: {x}")
+        if not pieces:
+            raise AnalysisError(f"{f.fq}: byte {b} is not printed by any branch")
+        text = "".join(pieces)
+        if text == chr(b):
+            out[b] = "raw"
+        elif text == "\\%02X" % b and text != "\\%02x" % b:
+            out[b] = "hex:f'\\\\{byte:02X}'"
+        elif text == "\\%02x" % b and text != "\\%02X" % b:
+            out[b] = "hex:f'\\\\{byte:02x}'"
+        elif text == "\\%02X" % b:
+            out[b] = "hex:f'\\\\{byte:02X}'"
+        else:
+            out[b] = "esc:" + text
     return out
 
 
